@@ -112,7 +112,7 @@ def check(ctx):
     rd, wr = ms.methods["read"], ms.methods["write"]
     for f, first, second in ((wr, "create_store", "copy_from_local"), (rd, "copy_to_local", "create_store")):
         ws = [n for n in f.own_nodes() if isinstance(n, ast.With)]
-        ok = len(ws) == 1 and len(f.node.body) == 1 + (1 if ast.get_docstring(f.node) else 0)
+        ok = len(ws) == 1 and len([s_ for s_ in f.node.body if not (isinstance(s_, ast.Expr) and isinstance(s_.value, ast.Constant))]) == 1
         ctx.ob("C12.S2", f"{f.short}/inside-tempdir", ok, loc(f), "whole body inside the temporary path context" if ok else
                "operations outside the temporary path context")
         if not ok:
